@@ -53,8 +53,9 @@ type c15tFault struct {
 	Kind   string `json:"fate"`   // "error-reply": the store answers errors, the connection survives
 	//                               "cut": the connection dies before the call reaches the store and the instance cannot reconnect
 	//                               "reply-lost": the call is executed, its reply is lost with the connection, then as "cut"
-	Start int `json:"start_call"` // the victim's n-th election call (campaign/renew/resign attempts, 1-based) is the first one hit
-	Len   int `json:"length"`     // error-reply: number of consecutive calls hit; cut/reply-lost: seconds without the store; 0 = until the end
+	Start int `json:"start_call"`      // the victim's n-th election call (campaign/renew/resign attempts, 1-based) is the first one hit
+	Len   int `json:"length"`          // error-reply: number of consecutive calls hit; cut/reply-lost: seconds without the store; 0 = until the end
+	Shard int `json:"shard,omitempty"` // real-run family only: which source shard's lease calls are hit (0-based)
 }
 
 type c15tInst struct {
